@@ -192,9 +192,9 @@ class Ctx:
         if env:
             e.update(env)
         r = self.tlc(module, cfg, workers=1, timeout=timeout, env=e, xmx=xmx, queue_dfs=True)
-        m = re.search(r'"REJECTED at event", (\d+), (.*)>>', r.out)
+        m = re.search(r'"REJECTED at event",\s*(\d+),\s*(.*?)\s*>>\s+FALSE', r.out, re.S)
         if m:
-            return False, {"index": int(m.group(1)), "event": m.group(2)[:600], "tlc": r}
+            return False, {"index": int(m.group(1)), "event": re.sub(r"\s+", " ", m.group(2))[:600], "tlc": r}
         if "TRACE ACCEPTED" in r.out and r.no_error:
             m2 = re.search(r'"TRACE ACCEPTED", (\d+)', r.out)
             return True, {"events": int(m2.group(1)) if m2 else 0, "tlc": r}
@@ -457,3 +457,44 @@ def replay_trace(ctx, path):
     else:
         print("replay: trace REJECTED by %s at event %d: %s" % (rp["trace_spec"], info["index"], info["event"]))
         ctx.violation("replay", "replayed trace rejected at event %d" % info["index"])
+
+
+# ---------- parallel harness processes, crash / race handling ----------
+def go_run_many(ctx, binary, run, envs, timeout=900, unshare=False):
+    """run the same test binary several times in parallel with different environments;
+    returns list of (rc, output)"""
+    import concurrent.futures
+    with concurrent.futures.ThreadPoolExecutor(max_workers=len(envs)) as ex:
+        futs = [ex.submit(ctx.go_run_test, binary, run, e, timeout, unshare) for e in envs]
+        return [f.result() for f in futs]
+
+
+_REPO_FRAME = re.compile(r"/repo/[^\s:]+\.go:\d+")
+
+
+def code_under_test_frames(text):
+    return [m.group(0) for m in _REPO_FRAME.finditer(text) if "zz_vf_" not in m.group(0)]
+
+
+def crash_events(ctx, rc, out, label):
+    """If the harness process died in a panic / fatal error / was reported by the race detector with a frame
+    of the code under test on the stack, return the synthetic run [Reset, Crash] (no spec action matches
+    Crash, so TLC rejects it). A crash inside the harness itself is an infrastructure problem."""
+    if rc == 0:
+        return []
+    kind = None
+    if "WARNING: DATA RACE" in out:
+        kind = "race"
+        seg = out[out.index("WARNING: DATA RACE"):][:6000]
+    elif re.search(r"^(panic:|fatal error:|unexpected fault address|SIGSEGV)", out, re.M):
+        kind = "panic"
+        m = re.search(r"^(panic:|fatal error:|unexpected fault address|SIGSEGV)", out, re.M)
+        seg = out[m.start():][:8000]
+    if kind is None:
+        raise Inconclusive("harness %s failed (rc=%d) without a crash of the code under test:\n%s" % (label, rc, out[-4000:]))
+    frames = code_under_test_frames(seg)
+    if not frames:
+        raise Inconclusive("harness %s crashed in the harness itself:\n%s" % (label, seg[:4000]))
+    first = seg.splitlines()[0][:300]
+    return [{"ev": "Reset", "n": 0, "w": 1, "limited": False, "script": [], "exact": False, "crash": True},
+            {"ev": "Crash", "kind": kind, "text": first, "frames": frames[:8]}]
